@@ -62,6 +62,8 @@ PLib == <<
   PKind("err-regexp2", "Parse", "[[ a =~ ((b) ", 0, {"mode", "open", "regexp", "err", "token", "reader"}),
   PKind("err-heredoc", "Parse", "cat <<EOF\nbody\n", 0, {"mode", "open", "heredocs", "err", "token", "reader"}),
   PKind("err-heredoc2", "Parse", "cat <<-A <<B; $(cat <<C\nx\n", 0, {"mode", "open", "heredocs", "err", "token", "reader"}),
+  PKind("err-heredoc-arith", "Parse", "<<-((", 0, {"mode", "open", "heredocs", "err", "token", "reader"}),   \* (with RecoverErrors: found by C06)
+  PKind("err-heredoc-bare", "Parse", "<<a", 0, {"mode", "open", "heredocs", "err", "token", "reader"}),
   PKind("err-arith",   "Parse", "echo $((1 +", 0, {"mode", "open", "err", "token", "reader"}),
   PKind("err-arithcmd", "Parse", "((a[1", 0, {"mode", "open", "err", "token", "reader"}),
   PKind("err-case",    "Parse", "case x in a) foo", 0, {"mode", "open", "err", "token", "reader"}),
